@@ -1,6 +1,7 @@
 import Gv.Sexp
 import Gv.Driver.Comments
 import Gv.Driver.Settings
+import Gv.Driver.Signature
 
 open Gv Gv.Sexp Gv.Driver
 
@@ -13,6 +14,7 @@ def dispatch (req : Sexp) : Sexp :=
   | some "localctx" => handleLocalCtx req
   | some "resolve" => handleResolve req
   | some "path" => handlePath req
+  | some "sig" => handleSig req
   | _ => mkList "err" [.atom "unknown-request"]
 
 partial def loop (hin hout : IO.FS.Stream) : IO Unit := do
